@@ -269,7 +269,7 @@ func (c *Ctx) funcWrites(fn *ssa.Function, visiting map[*ssa.Function]bool) *wri
 	if visiting[fn] {
 		return newWriteSet()
 	}
-	if fc := c.prog.contractFor(fn); fc != nil && (fc.External || fc.Trusted != "" || fc.Opts["callwrites"] == "declared") && fc.Opts["writes"] != "" {
+	if fc := c.prog.contractFor(fn); fc != nil && ((fc.External && !fc.verifiedDep()) || fc.Trusted != "" || fc.Opts["callwrites"] == "declared") && fc.Opts["writes"] != "" {
 		// `opt callwrites=declared` on a verified function: callers havoc only the heaps listed in
 		// `opt writes=` (as for a trusted contract) instead of everything the body scan finds; the
 		// body's frame obligations still show that no pre-existing object outside `modifies` changes
@@ -442,7 +442,7 @@ func (fr *frame) callFunc(fn *ssa.Function, bindings []Val, args []Val, st *Stat
 				extra[fvv.Name()] = bindings[i]
 			}
 		}
-		if fc.External || fc.Trusted != "" {
+		if (fc.External && !fc.verifiedDep()) || fc.Trusted != "" {
 			c.assumed["assumed contract: "+funcDisplay(fn)+" ("+fc.Trusted+")"] = true
 		}
 		return fr.applyContract(fc, funcDisplay(fn), names, args, extra, resultTypes(sig), st, pos, c.funcWrites(fn, map[*ssa.Function]bool{}), sig)
